@@ -342,3 +342,16 @@ def true_lipschitz(cfg):
     if fam == 'sepsum':
         return max(true_lipschitz(c) for c in cfg['parts'])
     return float('inf')
+
+
+def strong_convexity(cfg):
+    """Modulus mu such that f - mu/2 ||.||^2 is convex (space norm), computed
+    by the harness for the families where it is positive."""
+    fam, lam = cfg['fam'], cfg.get('lam', 1.0)
+    if fam in ('l2sq', 'l2sq_trans', 'l2sq_p', 'quadpert'):
+        return 2.0 * abs(lam)
+    if fam == 'quadpert_smooth':
+        return 2.0 + 2.0 * abs(lam)
+    if fam == 'sepsum':
+        return min(strong_convexity(c) for c in cfg['parts'])
+    return 0.0
